@@ -20,6 +20,7 @@ RULE = ("case = expression TREE over the documented grammar (boolean keywords an
         "connectives of different kinds, or an operator alias next to a connective")
 ENUM_SCOPE = ("all trees of depth <= D over 8 leaves x {not,!} x {and,&&} x {or,||}, both renderings (quick D=1, thorough D=2); "
               "malformed token streams: the full list of constructions x leaf choices")
+RULE += ('; widened: the topology also holds capping groups, nucleotides with primed names and atoms named like operator words (either case) or like identifiers of the generated code; one random case in ten and an enumerated block repeat the selection on a copy that was selected from, edited in place (insert / delete atom, add bond, rename atom / residue, renumber residue) and selected from again')
 QUICK = {"examples": 350, "shards": 12, "budget_s": 200}
 THOROUGH = {"examples": 4000, "shards": 16, "budget_s": 1700}
 ASSUMPTIONS = ["standard precedence (comparison binds tighter than not, not tighter than and, and tighter than or); an alias spelling means exactly "
